@@ -302,6 +302,16 @@ class World:
                 self.stats["late_resolutions"] += 1
 
     # -- checks
+    def accessor(self, pal, name, acc):
+        """an accessor of the hard-coded table that a (legitimate) refactoring removed is skipped, not an error"""
+        try:
+            return getattr(pal, acc)
+        except AttributeError:
+            if name in REAL:
+                self.stats["accessors_missing"] = self.stats.get("accessors_missing", 0) + 1
+                return None
+            raise Violation("resolve", "declared-accessor-missing", f"{name}.{acc}")
+
     def decode(self, fmt, where, sid):
         try:
             return sgr.decode_fmt_output(str(fmt("x")))
@@ -350,7 +360,10 @@ class World:
                 if self.touches_quarantine(reg, sid):
                     continue
                 self.stats["palette_checks"] += 1
-                self.compare(self.decode(getattr(p, acc), f"{name}(conf).{acc}", sid), reg.style(sid, nc),
+                f = self.accessor(p, name, acc)
+                if f is None:
+                    continue
+                self.compare(self.decode(f, f"{name}(conf).{acc}", sid), reg.style(sid, nc),
                              "component-palette", sid, f"(accessor {name}.{acc})")
 
     def touches_quarantine(self, reg, sid):
@@ -389,7 +402,10 @@ class World:
                 if self.touches_quarantine(greg, sid):
                     continue
                 self.stats["synced_checks"] += 1
-                self.compare(self.decode(getattr(pal, acc), f"synced {name}.{acc}", sid), greg.style(sid, nc),
+                f = self.accessor(pal, name, acc)
+                if f is None:
+                    continue
+                self.compare(self.decode(f, f"synced {name}.{acc}", sid), greg.style(sid, nc),
                              "synced-palette", sid, f"(accessor {name}.{acc})")
 
 
@@ -459,7 +475,9 @@ def execute(trace, rng):
                 if op.get("no_color"):
                     p = w.sut(f"{name}(conf, no_color=True)", cls, M, True)
                     for acc, sid in w.accessors(name).items():
-                        w.compare(w.decode(getattr(p, acc), f"{name}(no_color).{acc}", sid), PLAIN, "no_color-palette", sid)
+                        f = w.accessor(p, name, acc)
+                        if f is not None:
+                            w.compare(w.decode(f, f"{name}(no_color).{acc}", sid), PLAIN, "no_color-palette", sid)
                 else:
                     w.sut(f"{name}(conf)", cls, M)
                 w.deliver_comp(regM, name, w.used)
